@@ -681,7 +681,11 @@ func (r *Replica) reference(bz []byte) (*RefResult, *rctypes.Trx) {
 func (r *Replica) addReference(ev J, ref *RefResult, tx *rctypes.Trx, resp abcitypes.ResponseDeliverTx) {
 	addrs := map[string][]byte{}
 	r.App.Core.VerifView().Acct.VerifLedger().VerifConsensusView(func(k ledger.LedgerKey, ac *rctypes.Account) {
-		addrs[r.KR.Name(ac.Address)] = append([]byte{}, ac.Address...)
+		ad := ac.Address
+		if len(ad) != 20 {
+			ad = k[:20] // the record is found under the key of the padded address (see seedFromNative)
+		}
+		addrs[r.KR.NameAddr(ac.Address)] = append([]byte{}, ad...)
 	})
 	for _, ad := range ref.Touched {
 		addrs[r.KR.Name(ad[:])] = append([]byte{}, ad[:]...)
